@@ -1,15 +1,20 @@
 #!/bin/bash
 # verify_seed.sh <name>: confirm a seeded change in its scratch worktree /tmp/wt/<name>:
-# demo fails with patch, passes without, existing tests pass with patch.
+#  - the demonstration fails with the patch and passes without it,
+#  - the existing tests of every package the patch touches still pass with it
+#    (demo tests skipped; tsi1's TestGenerateIndexFile_Uvarint fails on the
+#    unmodified tree too and is skipped).
 name=$1; wt=/tmp/wt/$name; out=/tmp/seedout/$name
 export GOFLAGS=-mod=mod GOPROXY=off PKG_CONFIG_PATH=/tmp/stubflux
 cd $wt || exit 2
 log=$out/verify.log; : > $log
 demo=$(python3 -c "import json;print(json.load(open('$out/meta.json'))['demo_cmd'])")
-exist=$(python3 -c "import json;print(json.load(open('$out/meta.json'))['existing_tests_cmd'])")
+pkgs=$(grep '^+++ b/' $out/patch.diff | sed 's|^+++ b/||' | xargs -n1 dirname | sort -u | sed 's|^|./|' | tr '\n' ' ')
+skips=$(cat $out/*_test.go 2>/dev/null | grep -o '^func Test[A-Za-z0-9_]*' | sed 's/^func //' | sort -u | tr '\n' '|')
+skips="${skips}TestGenerateIndexFile_Uvarint"
+exist="go build -p 6 $pkgs && go test -p 6 -count=1 -vet=off -skip '$skips' $pkgs"
 echo "== status" >> $log; git status --short >> $log
-# make sure the tree has exactly patch applied
-git apply -R --check $out/patch.diff 2>>$log || { echo "RESULT patch-not-applied-cleanly" >> $log; }
+git apply -R --check $out/patch.diff 2>>$log || echo "WARN patch-not-applied-cleanly" >> $log
 echo "== demo WITH patch: $demo" >> $log
 ( eval "$demo" ) >> $log 2>&1; with=$?
 git apply -R $out/patch.diff >> $log 2>&1
@@ -18,5 +23,5 @@ echo "== demo WITHOUT patch" >> $log
 git apply $out/patch.diff >> $log 2>&1
 echo "== existing tests WITH patch: $exist" >> $log
 ( eval "$exist" ) >> $log 2>&1; ex=$?
-echo "RESULT with=$with without=$without existing=$ex" | tee -a $log
-if [ $with -ne 0 ] && [ $without -eq 0 ] && [ $ex -eq 0 ]; then echo CONFIRMED | tee -a $log; else echo NOT-CONFIRMED | tee -a $log; fi
+echo "RESULT $name with=$with without=$without existing=$ex" | tee -a $log
+if [ $with -ne 0 ] && [ $without -eq 0 ] && [ $ex -eq 0 ]; then echo "CONFIRMED $name" | tee -a $log; else echo "NOT-CONFIRMED $name" | tee -a $log; fi
